@@ -388,3 +388,28 @@ def case_materialize_reshape_zero():
 
 
 CASES["materialize_reshape_zero"] = case_materialize_reshape_zero
+
+
+def case_hardswish_tolerance():
+    import onnxruntime as ort
+    import onnxscript.rewriter as rw
+    from onnxscript.rewriter.rules.common import _fuse_hardswish as hs
+    g = helper.make_graph([helper.make_node("HardSigmoid", ["x"], ["h"], alpha=0.166668, beta=0.5), helper.make_node("Mul", ["h", "x"], ["y"])], "g",
+                          [vi("x", TensorProto.FLOAT, [3])], [vi("y", TensorProto.FLOAT, [3])])
+    m = helper.make_model(g, opset_imports=[helper.make_opsetid("", 18)], ir_version=9)
+    onnx.checker.check_model(m)
+    x = np.array([1.0, 2.0, -2.0], dtype=np.float32)
+
+    def ort_run(mm):
+        return ort.InferenceSession(mm.SerializeToString(), providers=["CPUExecutionProvider"]).run(None, {"x": x})[0]
+    before = ort_run(m)
+    o = rw.rewrite(m, pattern_rewrite_rules=hs.fuse_hardswish_rules())
+    after = ort_run(o)
+    if [n.op_type for n in o.graph.node] == ["HardSwish"] and not np.array_equal(before, after):
+        print(f"Mul(HardSigmoid<alpha=0.166668, beta=0.5>(x), x) is fused into HardSwish (alpha within numpy.isclose of 1/6): x={x.tolist()} gives "
+              f"{before.tolist()} before and {after.tolist()} after")
+        return 1
+    return 0
+
+
+CASES["hardswish_tolerance"] = case_hardswish_tolerance
